@@ -14,6 +14,7 @@ import OmplModel.Proofs.PathOpsPerturb
 import OmplModel.Proofs.PathOpsShortcutOrd
 import OmplModel.Proofs.PathOpsRound6
 import OmplModel.Proofs.PathOpsGeom
+import OmplModel.Proofs.PathOpsRopeF173
 /-!
 # C17 — path post-processing preserves endpoints, validity and never worsens cost
 
@@ -171,6 +172,14 @@ theorem rope_densify_subsequence {γ : Type} (E : RopeEnv σ γ) (l : List σ) :
 
 /-- non-vacuity: the routine on the former F9 input -/
 example : ropeShortcutPath f9Env 10 [0, 1, 2] = some ([0, 2], true, false, false) := rope_oob_fixed
+
+/-- F173 (fixed as cfb403c2a): with the FORMER pricing of the shortcut (`motionCost` of its end points) and an objective
+that is not additive along interpolated states, the routine took the same shortcut for ever — 40 outer iterations do not
+suffice and the vector is the same after each; with the tree's pricing (`RopeEnv.chord` = by the densified pieces) it returns -/
+theorem rope_old_endpoint_pricing_never_returns :
+    (∃ out r oob, ropeShortcutPath (f173Env false) 40 [0, 2, 4, 5] = some (out, r, oob, true)) ∧
+    ropeShortcutPath (f173Env true) 40 [0, 2, 4, 5] = some ([0, 2, 4, 5], false, false, false) :=
+  rope_endpoint_pricing_never_returns
 
 /-! ### the code before the fix (F9), kept as `ropeShortcutPathOld` -/
 
